@@ -342,6 +342,7 @@ def main_check(check_factory, argv=None):
     if a.replay:
         with open(a.replay) as f:
             doc = json.load(f)
+        check.replaying_known = os.path.basename(a.replay).startswith('known-')
         msg = replay_case(check, doc['case'])
         if msg is None:
             print('replay: case passes')
@@ -357,7 +358,9 @@ def main_check(check_factory, argv=None):
             continue
         with open(os.path.join(VERIF, k['reproducer'])) as f:
             doc = json.load(f)
+        check.replaying_known = True      # the reproducer of a known finding runs without the by-construction exclusion of its class
         msg = replay_case(check, doc['case'])
+        check.replaying_known = False
         if msg is not None:
             known_lines.append('KNOWN-FINDING: property=%s %s [%s]' % (pid, k['what'], k['id']))
     for l in known_lines:
